@@ -20,6 +20,9 @@ package main
 //	s.utf16    <r1> <r2>           utf16.IsSurrogate utf16.DecodeRune (stdlib only)
 //	s.int.enc  <type> <value>      Marshal of the typed value
 //	s.int.dec  <type> <hex doc>    Unmarshal(doc,&x): ok <v> | null | err
+//	s.float    <bits> <hex Float64bits> <hex Float32bits> <hex AppendFloat 'e'> <hex AppendFloat 'f'>
+//	                               Marshal(v) and Append([e-, v): <hex> <hex> | err err   (v a float64 or float32)
+//	s.floatq   (same args)         Marshal(struct{F floatN `json:"f,string"`}{v})
 
 import (
 	"bytes"
@@ -811,4 +814,193 @@ func c01s() {
 		}
 	})
 	c01sInts()
+	c01sFloats()
+}
+
+// ---- floats ----
+
+func init() {
+	replayers["s.float"] = func(a []string) {
+		bits, _ := strconv.Atoi(a[0])
+		u, _ := strconv.ParseUint(a[1], 16, 64)
+		sFloat(bits, math.Float64frombits(u))
+	}
+	replayers["s.floatq"] = func(a []string) {
+		bits, _ := strconv.Atoi(a[0])
+		u, _ := strconv.ParseUint(a[1], 16, 64)
+		sFloatQ(bits, math.Float64frombits(u))
+	}
+}
+
+// floatPrefix is the destination handed to Append: the clean-up of encodeFloat inspects the last bytes of the WHOLE
+// buffer, so the prefix ends in the bytes the clean-up looks for
+const floatPrefix = "[e-"
+
+// floatArgs narrows f to the width, and renders the complete input: the bit patterns and what strconv.AppendFloat
+// writes for the two formats the glue can choose (the model does not model strconv)
+func floatArgs(bits int, f float64) (v any, pv any, args string) {
+	var u32 uint32
+	if bits == 32 {
+		f32 := float32(f)
+		f = float64(f32)
+		u32 = math.Float32bits(f32)
+		v, pv = f32, &f32
+	} else {
+		u32 = math.Float32bits(float32(f))
+		g := f
+		v, pv = f, &g
+	}
+	args = fmt.Sprintf("%d %016x %08x %s %s", bits, math.Float64bits(f), u32,
+		hexs(strconv.AppendFloat(nil, f, 'e', -1, bits)), hexs(strconv.AppendFloat(nil, f, 'f', -1, bits)))
+	return
+}
+
+func sFloat(bits int, f float64) {
+	if !mine() {
+		skip()
+		return
+	}
+	v, pv, args := floatArgs(bits, f)
+	trace("s.float", args)
+	orc := "err err"
+	if ob, oerr := stdjson.Marshal(v); oerr == nil {
+		orc = hexs(ob) + " " + hexs(append([]byte(floatPrefix), ob...))
+	}
+	impl := sGuard(func() string {
+		b, err := json.Marshal(v)
+		if pb, perr := json.Marshal(pv); (perr != nil) != (err != nil) || !bytes.Equal(pb, b) {
+			return "MISMATCH Marshal(pointer) " + hexs(pb)
+		}
+		b2, err2 := json.Append([]byte(floatPrefix), v, 0)
+		return outObs(b, err) + " " + outObs(b2, err2)
+	})
+	emit("s.float", args, impl, orc)
+}
+
+func sFloatQ(bits int, f float64) {
+	if !mine() {
+		skip()
+		return
+	}
+	v, _, args := floatArgs(bits, f)
+	trace("s.floatq", args)
+	var sv any
+	if bits == 32 {
+		sv = struct {
+			F float32 `json:"f,string"`
+		}{v.(float32)}
+	} else {
+		sv = struct {
+			F float64 `json:"f,string"`
+		}{v.(float64)}
+	}
+	ob, oerr := stdjson.Marshal(sv)
+	orc := outObs(ob, oerr)
+	impl := sGuard(func() string {
+		b, err := json.Marshal(sv)
+		return outObs(b, err)
+	})
+	emit("s.floatq", args, impl, orc)
+}
+
+func c01sFloats() {
+	// The seeds of rng.go are neighbouring positions of ONE splitmix stream, and generators that consume a variable
+	// number of draws per case coalesce onto the same positions: by the time this function runs the state no longer
+	// depends on -seed. Jump to a position derived from the seed by a hash (restored at the end).
+	saved := rngState
+	z := *seed + 0x632BE59BD9B4E019
+	z = (z ^ (z >> 30)) * 0xBF58476D1CE4E5B9
+	z = (z ^ (z >> 27)) * 0x94D049BB133111EB
+	rngState = z ^ (z >> 31)
+	defer func() { rngState = saved }()
+	var vals []float64
+	add := func(x float64) { vals = append(vals, x, -x) }
+	ulps64 := func(x float64, ds ...int) {
+		u := math.Float64bits(x)
+		for _, d := range ds {
+			add(math.Float64frombits(u + uint64(int64(d))))
+		}
+	}
+	ulps32 := func(x float32, ds ...int) {
+		u := math.Float32bits(x)
+		for _, d := range ds {
+			add(float64(math.Float32frombits(u + uint32(int32(d)))))
+		}
+	}
+	for _, x := range jFloats {
+		add(x)
+	}
+	// every power of ten that has a float64 / float32 (and the underflows to 0 and overflows to Inf at the ends),
+	// with its two neighbours: x * (1 +- 2^-52), x * (1 +- 2^-23)
+	for k := -330; k <= 310; k++ {
+		x64, _ := strconv.ParseFloat("1e"+strconv.Itoa(k), 64)
+		add(x64)
+		if x64 != 0 && !math.IsInf(x64, 0) {
+			ulps64(x64, -1, 1)
+		}
+		y, _ := strconv.ParseFloat("1e"+strconv.Itoa(k), 32)
+		x32 := float32(y)
+		add(float64(x32))
+		if x32 != 0 && !math.IsInf(float64(x32), 0) {
+			ulps32(x32, -1, 1)
+		}
+	}
+	// the cut-offs 1e-6 and 1e21 of both widths, and the float32 cut-offs read as float64 (float32(1e-6) widened is
+	// below the float64 1e-6: the reason for the float32 comparison in the code)
+	ulps64(1e-6, -3, -2, -1, 0, 1, 2, 3)
+	ulps64(1e21, -3, -2, -1, 0, 1, 2, 3)
+	ulps32(1e-6, -3, -2, -1, 0, 1, 2, 3)
+	ulps32(1e21, -3, -2, -1, 0, 1, 2, 3)
+	ulps64(float64(float32(1e-6)), -2, -1, 0, 1, 2)
+	ulps64(float64(float32(1e21)), -2, -1, 0, 1, 2)
+	// exponent clean-up boundaries: e-10 / e-09, e-100 / e-99, e+09 / e+10
+	for _, s := range []string{"1e-9", "9.99e-10", "1e-10", "1.5e-10", "1e-99", "1e-100", "9.9e-100", "1e-101", "1e+99", "1e+100", "1e-307", "1e-308", "2.5e-7", "1e-5", "9.999999999e20", "1.7976931348623157e308", "123456789012345678901", "1234567890123456789012"} {
+		x, _ := strconv.ParseFloat(s, 64)
+		add(x)
+	}
+	// subnormals, smallest normals, largest values of both widths and their neighbours
+	for _, u := range []uint64{1, 2, 3, 1<<52 - 1, 1 << 52, 1<<52 + 1, 0x7fefffffffffffff, 0x7feffffffffffffe, 0x3ff0000000000000, 0x3ff0000000000001, 0x3fefffffffffffff} {
+		add(math.Float64frombits(u))
+	}
+	for _, u := range []uint32{1, 2, 3, 1<<23 - 1, 1 << 23, 1<<23 + 1, 0x7f7fffff, 0x7f7ffffe, 0x3f800000, 0x3f800001, 0x3f7fffff} {
+		add(float64(math.Float32frombits(u)))
+	}
+	ulps64(float64(math.MaxFloat32), -1, 0, 1)                  // above MaxFloat32: +Inf as a float32
+	add(float64(math.MaxFloat32) * (1 + 1.0/(1<<25)))           // rounds to MaxFloat32 or to +Inf
+	add(float64(math.SmallestNonzeroFloat32) / 2)               // rounds to 0 as a float32
+	add(float64(math.SmallestNonzeroFloat32) / 2 * (1 + 1e-10)) // rounds to the smallest subnormal
+	// not-a-number and infinities
+	for _, u := range []uint64{0x7ff0000000000000, 0xfff0000000000000, 0x7ff8000000000000, 0x7ff8000000000001, 0x7ff0000000000001, 0xfff8000000000000, 0x7fffffffffffffff, 0xffffffffffffffff} {
+		vals = append(vals, math.Float64frombits(u))
+	}
+	nr := 1500
+	if *tier == "thorough" {
+		nr = 40000
+	}
+	for i := 0; i < nr; i++ {
+		switch rndn(5) {
+		case 0: // any bit pattern
+			vals = append(vals, math.Float64frombits(rnd()))
+		case 1:
+			vals = append(vals, float64(math.Float32frombits(uint32(rnd()))))
+		case 2: // binary exponent around the cut-offs (2^-20 ~ 1e-6, 2^70 ~ 1e21), random mantissa of random length
+			e := uint64(1023 - 40 + rndn(125))
+			m := rnd() & (1<<52 - 1) &^ (1<<uint(rndn(53)) - 1)
+			add(math.Float64frombits(e<<52 | m))
+		case 3: // short decimals with any decimal exponent
+			x, _ := strconv.ParseFloat(fmt.Sprintf("%de%d", 1+rndn(9999), -340+rndn(660)), 64)
+			add(x)
+		case 4: // short decimals around the cut-offs
+			x, _ := strconv.ParseFloat(fmt.Sprintf("%de%d", 1+rndn(99999), pick([]int{-12, -11, -10, -9, -8, -7, 15, 16, 17, 18, 19, 20, 21})), 64)
+			add(x)
+		}
+	}
+	for _, x := range vals {
+		sFloat(64, x)
+		sFloat(32, x)
+		if rndn(4) == 0 {
+			sFloatQ(64, x)
+			sFloatQ(32, x)
+		}
+	}
 }
